@@ -1516,6 +1516,19 @@ func (e *Entry) dup() *Entry {
 		ne.Extra[k] = v
 	}
 
+	// The input and output of an rpc or action are subtrees of their own.
+	if e.RPC != nil {
+		ne.RPC = &RPCEntry{}
+		if e.RPC.Input != nil {
+			ne.RPC.Input = e.RPC.Input.dup()
+			ne.RPC.Input.Parent = &ne
+		}
+		if e.RPC.Output != nil {
+			ne.RPC.Output = e.RPC.Output.dup()
+			ne.RPC.Output.Parent = &ne
+		}
+	}
+
 	// ListAttr is modified in place by deviations, so every copy needs
 	// its own.
 	if e.ListAttr != nil {
